@@ -574,13 +574,17 @@ fn plant(b: &Body, rng: &mut Rng, dom: usize, out: &mut Vec<String>) {
             }).sum::<usize>()
     };
     let small = dom.min(4);
+    // half of the time the planted values come from a pool disjoint from the noise rows, so that the
+    // rows of one key are exactly one contiguous block
+    let disjoint = rng.chance(1, 2);
+    let pool: Vec<usize> = if disjoint { (0..3).map(|i| 5000 + i).collect() } else { (0..small).collect() };
     let nplant = 1 + rng.below(4);
     let mut fresh = 3000usize;
     let mut blocks: Vec<Vec<String>> = vec![vec![]; b.atoms.len()];
     for _ in 0..nplant {
         // assignment: var -> term text
         let mut asg: Vec<Option<String>> = b.var_ty.iter().map(|t| match t {
-            Ty::S => Some(nterm(rng.below(small))),
+            Ty::S => Some(nterm(*rng.pick(&pool))),
             Ty::I => Some(rng.range(0, 3).to_string()),
         }).collect();
         // constructor atoms define their output variable (no union needed), in body order
